@@ -34,6 +34,7 @@ def main():
     ap.add_argument("--tag", default=None)
     ap.add_argument("--keep", action="store_true")
     ap.add_argument("--also", nargs="*", default=[], help="further property ids to run")
+    ap.add_argument("--skip-wt", nargs="*", default=[], help="files whose uncommitted /repo changes are NOT transplanted (seed made against HEAD)")
     args = ap.parse_args()
     tag = args.tag or ("%s-%d" % (args.pid.lower(), os.getpid()))
     repo = "/tmp/evalrepo-" + tag
@@ -43,7 +44,7 @@ def main():
         shutil.rmtree(repo, ignore_errors=True)
         sh("git -C /repo worktree prune")
         sh(["git", "-C", "/repo", "worktree", "add", "--detach", repo, "HEAD", "-q"], check=True)
-        rc, diff = sh("git -C /repo diff")
+        rc, diff = sh("git -C /repo diff -- . " + " ".join("':(exclude)%s'" % f for f in args.skip_wt))
         if diff.strip():
             p = subprocess.run(["git", "apply"], cwd=repo, input=diff, text=True)
             if p.returncode != 0:
